@@ -3,6 +3,8 @@ PROP = dict(
     parts=[
         dict(name="abi-classification", harness="c06_abi", runner="custom", module="c06_abi", make=["build/bin/c06_abi"], replay_match=r"\.sig$",
              quick=dict(sigs_per_abi=40, light_sigs=40), thorough=dict(sigs_per_abi=1500, light_sigs=600)),
+        dict(name="args-assignment", harness="c06", replay_match=r"\.case$",
+             quick=dict(cases=24000, max_size=60, workers=8), thorough=dict(cases=640000, max_size=80, workers=16)),
     ],
     rule="TBD",
     assumptions=[],
